@@ -35,13 +35,13 @@ From SV Require Import Tables ArgCheck ArgSpec Machine Printer CompleteFacts Com
 
 (* the loader's `if false` test uses the two classes __isdisabled tests in the source *)
 Theorem C11_disabled_test :
-  [k_if; k_false] = gen_disabled_classes.
+  guarded gen_disabled_classes (fun l : list bytes => [k_if; k_false] = l).
 Proof. exact ConstFacts.disabled_classes_ok. Qed.
 Print Assumptions C11_disabled_test.
 
 (* the default name of a loaded filter is the format string of from_parser_result *)
 Theorem C11_default_name :
-  forall cpt : N, unnamed cpt = gen_unnamed_prefix ++ dec cpt.
+  guarded gen_unnamed_prefix (fun p : bytes => forall cpt : N, unnamed cpt = p ++ dec cpt).
 Proof. exact ConstFacts.unnamed_prefix_ok. Qed.
 Print Assumptions C11_default_name.
 
